@@ -292,7 +292,10 @@ _ALSO = {
     "C09": ("a sign followed by a character the macro joins is a symbol for the text parser too (two open findings: `-.`, "
             "`+.`); the macro's alphabets are obtained by abstract evaluation of its token parser for each ASCII "
             "punctuation character with the token stream symbolic; a character reported Spacing::Alone ends the macro's symbol "
-            "and a Joint one continues it, at the start of a symbol and inside one (70 cases).",
+            "and a Joint one continues it, at the start of a symbol and inside one (70 cases); inside a list the macro's list "
+            "parser consumes a token itself exactly for a `.` standing Alone (the dotted-tail marker) - a `.` glued to "
+            "further punctuation, every other punctuation character and a `-` before a literal go to the element parser "
+            "unconsumed, whatever follows (384 token vectors).",
             "abstract evaluation of the macro crate's token parser per punctuation character, compared with byte classes "
             "and token kinds extracted from the text parser"),
     "C10": ("around each nested construct (list, vector, byte vector, quote shorthand) both APIs can raise exactly the same "
